@@ -168,6 +168,12 @@ def interp(e, env):
         return vdot(a, vcross(b, c))
     if isinstance(e, V.VectorNorm):
         return vnorm(_v(interp(e.args[0], env)))
+    if isinstance(e, sympy.Derivative) and isinstance(e.expr, sympy.sign):
+        # d/dt sign(u) = 2 delta(u) u' : zero away from u = 0
+        u = _val(interp(e.expr.args[0], env))
+        if u == 0:
+            raise ZeroDivisionError("derivative of sign at 0")
+        return mpmath.mpf(0)
     if isinstance(e, sympy.Derivative):
         f = e.expr
         order = sum(n for _, n in e.variable_count)
